@@ -80,7 +80,7 @@ def gen_history(r, mc, thorough):
             if kind < 1: ops.append("dflt %d %d %d" % (s, tag(), al())); occ[s] = (0, 0)
             elif kind < 4 or not full: ops.append("dims %d %d %d %d %d %d" % (s, tag(), al(), dim(), dim(), v())); occ[s] = 1
             elif kind < 6:
-                if org == "gray1": ops.append("fillprobe %d %d %d %d %d %d" % (s, tag(), al(), dim(), dim(), v()))
+                if r.chance(1, 4): ops.append("fillprobe %d %d %d %d %d %d" % (s, tag(), al(), dim(), dim(), v()))
                 else: ops.append("fill %d %d %d %d %d %d" % (s, tag(), al(), dim(), dim(), v()))
                 occ[s] = 1
             elif kind < 7 and same and org != "elem": ops.append("fromview %d %d %d %d" % (s, tag(), al(), r.choice(same))); occ[s] = 1
@@ -95,7 +95,7 @@ def gen_history(r, mc, thorough):
         other = [x for x in full if side(x) != side(s)]
         if k < 45:
             kind = r.below(8)
-            fillok = org != "gray1"
+            fillok = True
             if kind < 3 or (not fillok and kind < 5): ops.append("rec %d %d %d %d %d" % (s, dim(), dim(), al(), v()))
             elif kind < 5: ops.append("recf %d %d %d %d %d" % (s, dim(), dim(), v(), al()))
             elif kind < 7 or not fillok: ops.append("reca %d %d %d %d %d %d" % (s, dim(), dim(), al(), tag(), v()))
@@ -146,8 +146,8 @@ ASSUME = [
     "faults: one injected failure per history (the k-th allocation or the k-th element construction); assignment of elements does not throw",
 ]
 
-def compile_all(ctx, mc):
-    defines = ["C10_ELEM_MASSIGN_COMPILES"] if mc else []
+def compile_all(ctx, mc, elem_ok=True):
+    defines = (["C10_ELEM_MASSIGN_COMPILES"] if mc else []) + ([] if elem_ok else ["C10_NO_ELEM"])
     def one(b):
         alloc, mode = b
         d = defines + ["C10_ALLOC=%d" % ALLOCS.index(alloc)] + (["NDEBUG"] if mode == "rel" else [])
@@ -162,7 +162,9 @@ def run(ctx, ops=None):
     pb, perr = vlib.compile_harness(ctx, "harness/C10/probe_massign.cpp", name="C10_probe", sanitize=False, opt="-O0")
     mc = 1 if pb else 0
     ctx.cov["probe_elem_move_assign_compiles"] = bool(pb)
-    bins = compile_all(ctx, mc)
+    pe, _ = vlib.compile_harness(ctx, "harness/C10/probe_elem.cpp", name="C10_probe_elem", sanitize=False, opt="-O0")
+    ctx.cov["probe_nontrivial_element_compiles"] = bool(pe)
+    bins = compile_all(ctx, mc, bool(pe))
     samples, distinct = [], 0
     bad = [(b, e) for b, (p, e) in bins.items() if p is None]
     if bad:
